@@ -370,6 +370,12 @@ fn rewrite_variants(r: &mut Rng, seg: &Seg, base_framing: Framing) -> Vec<(Strin
     m("flow_label", &|s| s.flow_label = fl);
     let up = r.u16();
     m("urg_ptr", &|s| s.urg_ptr = up);
+    // the NICs' Ethernet addresses are not part of a connection's identity either
+    for _ in 0..3 {
+        let mut e = pkt::mac(r).to_vec();
+        e.extend_from_slice(&pkt::mac(r));
+        m("ethernet_addresses", &|s| s.eth = e.clone());
+    }
     if seg.src.is_v4() {
         let n = 4 * r.urange(1, 5);
         m("ip_options", &|s| s.ip_opts = vec![1u8; n]);
